@@ -495,19 +495,16 @@ DEMUX_CONTRACTS = [
                   "forall(lambda k: k == subprotocol_name or self._pending_opens[k] == old(self._pending_opens)[k], 'str')")],
              internal_ensures=[
                  ("every-queued-open-connected-exactly-once-FIFO",
-                  "len(done) == len(old(self._pending_opens)[subprotocol_name]) and forall(lambda j: implies(0 <= j and "
-                  "j < len(done), done[j] == old(self._pending_opens)[subprotocol_name][j]))")],
+                  "queued == old(self._pending_opens)[subprotocol_name] and n == len(queued)")],
              loops={0: {"header": "pending", "retype": {"pending": f"seq[{OPEN_T}]"},
-                        "ghost_init": {"done": f'empty_seq("{OPEN_T}")'},
-                        "ghost_update": {"done": "done + [(iter_call_arg('_connect', 2), iter_call_arg('_connect', 3))]"},
+                        "ghost_init": {"n": "0", "queued": "pending[:]"},
+                        "ghost_update": {"n": "n + 1"},
                         "body_ensures": ["iter_call_arg('_connect', 1) == factory",
-                                         "iter_call_arg('_connect', 2) == at_iter(pending)[0][0] and "
-                                         "iter_call_arg('_connect', 3) == at_iter(pending)[0][1]"],
-                        "invariant": ["len(done) + len(pending) == len(at_entry(pending))",
-                                      "forall(lambda j: implies(0 <= j and j < len(done), done[j] == at_entry(pending)[j]))",
-                                      "forall(lambda j: implies(0 <= j and j < len(pending), "
-                                      "pending[j] == at_entry(pending)[len(done) + j]))"]}},
-             note="ghost `done` = the (transport, address) pairs handed to _connect, one per iteration, in queue order"),
+                                         "iter_call_arg('_connect', 2) == queued[at_iter(n)][0] and "
+                                         "iter_call_arg('_connect', 3) == queued[at_iter(n)][1]"],
+                        "invariant": ["queued == at_entry(pending)", "0 <= n and n <= len(queued)",
+                                      "pending == queued[n:]"]}},
+             note="ghost queued = the opens waiting under this name at entry, n = iterations done: iteration k hands exactly queued[k] to _connect (one call per iteration, loop body clause) and the loop ends at n == len(queued)"),
 ]
 
 INB_FIELDS = {"_open_subchannels": "dict[int,opaque[SubChannel]]", "_manager": "obj[ManagerB]", "_host_addr": "opaque[Addr]"}
